@@ -18,7 +18,7 @@ for m in cat:
         open(p, 'w').write(s.replace(m['old'], m['new']))
         t0 = time.time()
         cmd = [os.path.join(VERIF, 'check'), pid] + (['--only', ','.join(m['units'])] if m.get('units') else [])
-        r = subprocess.run(cmd, env=dict(os.environ, VERIF_REPO=d), stdout=subprocess.PIPE, stderr=subprocess.STDOUT)
+        r = subprocess.run(cmd, env=dict(os.environ, VERIF_REPO=d, VERIF_OUT=os.path.join(d, 'out'), VERIF_NO_TV='1'), stdout=subprocess.PIPE, stderr=subprocess.STDOUT)
         out = r.stdout.decode()
         confirmed = 'no-failing-input-found' not in ''.join(l for l in out.split('\n') if l.startswith('VIOLATION'))
         verdict = {0: 'MISSED (check stayed green)', 1: 'caught' + (' (replay confirmed)' if confirmed else ' (no-failing-input-found)'), 2: 'undecided (exit 2)'}.get(r.returncode, 'rc=%d' % r.returncode)
